@@ -36,6 +36,14 @@ def group(rng, mk, ids, vals=None):
         u["group"] = _g[0]
         u["family"] = (u.get("family") or "") + "/names-from-values"
         us.append(u)
+    # index names 0..n-1 in a random order (0 is a FALSY name; small integers collide with small values and with indices)
+    if vals is not None and len(vals) >= 1:
+        ids3 = list(range(len(vals)))
+        rng.shuffle(ids3)
+        u = mk("dict_int", ids3)
+        u["group"] = _g[0]
+        u["family"] = (u.get("family") or "") + "/index-names"
+        us.append(u)
     return us
 
 
@@ -175,7 +183,7 @@ def extra_checks(rng, tier, us, oc):
             u, r = us[i], oc.impl[i]
             if is_named_bc(u):
                 continue            # known finding bc-named-items (reported by the per-unit path)
-            tag = u["params"]["fmt"] + ("(names from values)" if "names-from-values" in (u.get("family") or "") else "")
+            tag = u["params"]["fmt"] + ("(names from values)" if "names-from-values" in (u.get("family") or "") else "") + ("(index names)" if "index-names" in (u.get("family") or "") else "")
             if "exc" in r:
                 res[tag] = ("exc", r["exc"])
             elif isinstance(r.get("bins"), list):
